@@ -262,6 +262,11 @@ def jobs(tier, seed):
                   {"shapes": [F([S(1), O(1, [(1, []), (1, [])]), R([S(1)])])],
                    "opts": {"select": True, "stop": "sym", "out_dom": {"*": [0, 1]}}, "checks": ["rollup"]},
                   reach=["C03.rollup(outline)", "C03.rollup(rule)"], min_paths=20, cost=6000, validate=100))
+    # the run is aborted by user code (context.abort() in a passing step) and de-selected elements follow
+    js.append(Job("c.abort-then-deselected", "vlib.stage1:h_stage1",
+                  {"shapes": [F([S(1), S(1), R([S(1)])]), F([S(1)])],
+                   "opts": {"select": True, "out_dom": {"*": [0, 8]}, "undef": False}, "checks": ["rollup"]},
+                  reach=["C03.rollup(feature)", "C03.rollup(rule)"], min_paths=20, cost=6000, validate=100))
     js.append(Job("c.hookfault", "vlib.stage1:h_stage1",
                   {"shapes": [F([S(1, tags=["t1"]), R([S(1)], tags=["t2"])], tags=["t0"]), F([O(1, [(2, [])])])],
                    "opts": {"hooks": True, "fault": True, "stop": "sym", "out_dom": {"*": [0, 1]}},
